@@ -4,7 +4,7 @@
 From Coq Require Import ZArith List String Ascii Bool Permutation.
 From Gen Require Import Elements TokenTables SmartsTables.
 From Model Require Import PyBase Graph PeriodicTable Tokenize Smarts Query.
-From Proofs Require Import QueryProofs SmartsProofs.
+From Proofs Require Import QueryProofs TokenizeProofs SmartsProofs.
 Import ListNotations.
 Open Scope Z_scope.
 
@@ -132,44 +132,37 @@ Proof. exact bond_in_ring_spec. Qed.
 Print Assumptions C08_bond_in_ring_spec.
 
 (* ---------------------------------------------------------------------------------------------------------------- *)
-(* smarts_total, bracket-atom level (_query_parse + the class dispatch and setters run by smarts()): for ALL bodies,
-   which exception can come from where *)
-Theorem C08_query_parse_errors : forall token e, query_parse token = Err e ->
-  e = IncorrectSmarts \/ e = ValueError \/ (e = IndexError /\ exists p, In p (primitives_of token) /\ bad_or p).
+(* smarts_total.  For EVERY bracket body: _query_parse raises only the invalid-SMARTS error or the ValueError of int() ... *)
+Theorem C08_query_parse_errors : forall token e, query_parse token = Err e -> e = IncorrectSmarts \/ e = ValueError.
 Proof. exact query_parse_errors. Qed.
 Print Assumptions C08_query_parse_errors.
 
+(* ... the construction cls(kwargs) wrapped by smarts() raises a ValueError (setter range / duplicate / unknown element) or
+   the invalid-SMARTS error, the latter exactly for a keyword the chosen class does not accept (isotope on A, M or a list;
+   charge, stereo, h, x, r on M) ... *)
 Theorem C08_build_atom_errors : forall p e, build_atom p = Err e ->
-  e = ValueError \/ (e = TypeError /\ unsupported_kw p).
+  e = ValueError \/ (e = IncorrectSmarts /\ unsupported_kw p = true).
 Proof. exact build_atom_errors. Qed.
 Print Assumptions C08_build_atom_errors.
 
-Theorem C08_smarts_atom_errors : forall body e, smarts_atom body = Err e ->
-  e = IncorrectSmarts \/ e = ValueError \/
-  (e = IndexError /\ exists p, In p (primitives_of body) /\ bad_or p) \/
-  (e = TypeError /\ exists p, query_parse body = Ok p /\ unsupported_kw p).
-Proof. exact smarts_atom_errors. Qed.
-Print Assumptions C08_smarts_atom_errors.
+(* ... so the bracket-atom path of smarts() is total in the documented sense (full statement; the earlier trees violated
+   it: fixes 4293956, 40c2ce4, edb42d5) *)
+Theorem C08_smarts_atom_total : forall body e, smarts_atom body = Err e -> e = IncorrectSmarts \/ e = ValueError.
+Proof. exact smarts_atom_total. Qed.
+Print Assumptions C08_smarts_atom_total.
 
-(* the full statement "only the invalid-SMARTS error (or a ValueError of a setter)" needs two hypotheses on the
-   unchanged code: no OR list with an empty alternative, no keyword the chosen class does not accept ... *)
-Theorem C08_smarts_atom_total_partial : forall body e,
-  (forall p, In p (primitives_of body) -> ~ bad_or p) ->
-  (forall p, query_parse body = Ok p -> ~ unsupported_kw p) ->
-  smarts_atom body = Err e -> e = IncorrectSmarts \/ e = ValueError.
-Proof. exact smarts_atom_total_partial. Qed.
-Print Assumptions C08_smarts_atom_total_partial.
+(* For EVERY string: smarts_tokenize (_tokenize followed by _query_parse on every bracket body) returns tokens or raises
+   IncorrectSmiles / IncorrectSmarts / ValueError (uses TokenizeProofs.tokenize_raw_good of C03) *)
+Theorem C08_smarts_tokenize_total : forall s e, smarts_tokenize s = Err e ->
+  e = IncorrectSmiles \/ e = IncorrectSmarts \/ e = ValueError.
+Proof. exact smarts_tokenize_total. Qed.
+Print Assumptions C08_smarts_tokenize_total.
 
-(* ... without them it is false (known findings smarts-or-empty-alternative, smarts-unsupported-kwarg-typeerror) *)
-Theorem C08_smarts_atom_total_refuted :
-  smarts_atom (s2l "C;,D1") = Err IndexError /\ smarts_atom (s2l "C;D1,") = Err IndexError /\
-  smarts_atom (s2l "M+") = Err TypeError /\ smarts_atom (s2l "M;h1") = Err TypeError /\
-  smarts_atom (s2l "2A") = Err TypeError /\ smarts_atom (s2l "12C,N") = Err TypeError.
-Proof. exact smarts_atom_total_refuted. Qed.
-Print Assumptions C08_smarts_atom_total_refuted.
-
-(* non-vacuity: rejected and accepted bodies that satisfy the hypotheses (the [C+-] case is fix 4293956) *)
+(* non-vacuity: bodies that are rejected (the first seven crashed in earlier trees) and accepted *)
 Theorem C08_smarts_atom_examples :
+  smarts_atom (s2l "C;,D1") = Err IncorrectSmarts /\ smarts_atom (s2l "C;D1,") = Err IncorrectSmarts /\
+  smarts_atom (s2l "M+") = Err IncorrectSmarts /\ smarts_atom (s2l "M;h1") = Err IncorrectSmarts /\
+  smarts_atom (s2l "2A") = Err IncorrectSmarts /\ smarts_atom (s2l "12C,N") = Err IncorrectSmarts /\
   smarts_atom (s2l "C+-") = Err IncorrectSmarts /\ smarts_atom (s2l "C;D15") = Err ValueError /\
   smarts_atom (s2l "C;D1,h1") = Err IncorrectSmarts /\ smarts_atom (s2l ";D1") = Err IncorrectSmarts /\
   smarts_atom (s2l "13C@+;D1,D2;h0;r5,r6;x1;z1,z2;M:7") =
@@ -185,7 +178,9 @@ Theorem C08_smarts_sources_pinned :
   iso_re_src = "^[0-9]+"%string /\ chg_re_src = "[+-][1-4+-]?"%string /\ mpp_re_src = ":[1-9][0-9]*$"%string /\
   str_re_src = "@[@?]?"%string /\
   not_bond_after = [0; 2; 3; 6; 8] /\
-  final_tests = [(5, "IncorrectSmiles"%string); (7, "-"%string); (11, "IncorrectSmarts"%string); (-1, "-"%string)] /\
+  ring_mark_after = [1; 10] /\
+  final_tests = [(5, "IncorrectSmiles"%string); (7, "-"%string); (11, "IncorrectSmarts"%string); (12, "IncorrectSmarts"%string);
+                 (-1, "-"%string)] /\
   prim_keywords = ["a"%string; "A"%string; "!R"%string; "M"%string] /\
   prim_keys = [("D"%string, "neighbors"%string); ("h"%string, "implicit_hydrogens"%string); ("r"%string, "ring_sizes"%string);
                ("x"%string, "heteroatoms"%string); ("*"%string, "hybridization"%string)] /\
@@ -233,14 +228,10 @@ Print Assumptions C08_not_bond_spec.
 Theorem C08_bond_spelling_rejected :
   bond_of_spelling "-,=,#" = Err IncorrectSmarts /\ bond_of_spelling "!!-" = Err IncorrectSmarts /\
   bond_of_spelling "!-,=" = Err IncorrectSmarts /\ bond_of_spelling ";@" = Err IncorrectSmarts /\
-  bond_of_spelling "-;!!@" = Err IncorrectSmarts /\ tokenize_now "C!" = Err IncorrectSmarts /\
-  tokenize_now "C!-" = Ok [(0, PStr "C"); (10, PZs [2; 3; 4])].
+  bond_of_spelling "-;!!@" = Err IncorrectSmarts /\
+  tokenize_raw "C!-" = Ok [(0, PStr "C"); (10, PZs [2; 3; 4])] /\
+  tokenize_raw "C!" = Err IncorrectSmarts /\ tokenize_raw "C!~C" = Err IncorrectSmarts /\
+  tokenize_raw "C-;@;@C" = Err IncorrectSmarts /\ tokenize_raw ";@C" = Err IncorrectSmarts /\
+  tokenize_raw "C-;" = Err IncorrectSmarts /\ tokenize_raw "C-;!" = Err IncorrectSmarts.
 Proof. exact bond_spelling_rejected. Qed.
 Print Assumptions C08_bond_spelling_rejected.
-
-(* "every string is tokenized or rejected with IncorrectSmiles / IncorrectSmarts" is false for the unchanged tokenizer
-   (known findings smarts-not-any-bond-keyerror, smarts-double-ring-mark-typeerror, smarts-leading-ring-mark-indexerror) *)
-Theorem C08_tokenize_total_refuted :
-  tokenize_now "C!~C" = Err KeyError /\ tokenize_now "C-;@;@C" = Err TypeError /\ tokenize_now ";@C" = Err IndexError.
-Proof. exact tokenize_total_refuted. Qed.
-Print Assumptions C08_tokenize_total_refuted.
